@@ -536,6 +536,26 @@ impl Similar<Mine> for Tensor<f64, 1> {
 }
 fn main() {}
 """, "use easy_ml::tensors::operations::Similar;\nuse easy_ml::tensors::Tensor;\n")
+# seeded change C20-t1: a downstream PartialEq<Local> impl must not open the seal
+probe("sealed_similar_view_foreign_rhs_after_partial_eq", "C20_seal_impls_closed",
+      "sealed-open tensors::operations Similar private Sealed", "error E0277", """
+struct Mine;
+// allowed by the orphan rules (Mine is local); nothing to do with sealing
+impl PartialEq<Mine> for TensorView<f64, Tensor<f64, 1>, 1> {
+    fn eq(&self, _other: &Mine) -> bool { false }
+}
+impl Similar<Mine> for TensorView<f64, Tensor<f64, 1>, 1> {
+    fn similar(&self, _other: &Mine) -> bool { true }
+}
+fn main() {}
+""", "use easy_ml::tensors::operations::Similar;\nuse easy_ml::tensors::views::TensorView;\nuse easy_ml::tensors::Tensor;\n")
+probe("sealed_similar_view_foreign_rhs", "C20_seal_covers_rhs", "sealed-rhs tensors::operations Similar private Sealed", "error E0277", """
+struct Mine;
+impl Similar<Mine> for TensorView<f64, Tensor<f64, 1>, 1> {
+    fn similar(&self, _other: &Mine) -> bool { true }
+}
+fn main() {}
+""", "use easy_ml::tensors::operations::Similar;\nuse easy_ml::tensors::views::TensorView;\nuse easy_ml::tensors::Tensor;\n")
 probe("sealed_similar_usable", "C20_sealed", "valid", "compile", """
 fn main() {
     let a = Tensor::from([("x", 2)], vec![1.0f64, 2.0]);
